@@ -160,59 +160,62 @@ def run(ctx, res):
 
     # ---- R1 constructors --------------------------------------------------------
     res.floor("C05.R1", 12)
-    want = {
-        "merger_iter": [("mtbl_source_iter", [])],
-        "merger_get": [("mtbl_source_get_range", [1, 2, 1, 2]), ("mtbl_source_get", [1, 2])],
-        "merger_get_prefix": [("mtbl_source_get_prefix", [1, 2])],
-        "merger_get_range": [("mtbl_source_get_range", [1, 2, 3, 4])],
-    }
+    # Decided at the four entry points the merger installs in its source (slots of mtbl_source_init), on their paths, with
+    # delegation between those entry points followed (merger_get may be "the range [key, key]" by calling merger_get_range):
+    # every per-source lookup is the right source operation with the entry point's own key arguments, the sources are taken
+    # as elements 0, 1, 2, ... of the merger's source vector, and the walk ends only when the index has reached its size.
     lookups = {"mtbl_source_iter", "mtbl_source_get", "mtbl_source_get_prefix", "mtbl_source_get_range"}
+    slotfn = {}
+    for i_, kind in ((0, "iter"), (1, "get"), (2, "get_prefix"), (3, "get_range")):
+        cands = [n_ for n_ in cg.param_funcs.get(("mtbl_source_init", i_), ()) if prog.func(n_, U) is not None and prog.func(n_, U).file.endswith("merger.c")]
+        if len(cands) != 1:
+            raise BrokenAnalysis("merger source slot %d: expected one merger function, found %s" % (i_, sorted(cands)))
+        slotfn[kind] = prog.func(cands[0], U)
+    want = {}
+    for kind, f_ in slotfn.items():
+        want[f_.name] = {"iter": [("mtbl_source_iter", [])],
+                         "get": [("mtbl_source_get_range", [1, 2, 1, 2]), ("mtbl_source_get", [1, 2])],
+                         "get_prefix": [("mtbl_source_get_prefix", [1, 2])],
+                         "get_range": [("mtbl_source_get_range", [1, 2, 3, 4])]}[kind]
+    siblings = tuple(f_.name for f_ in slotfn.values())
     for fn, accepted in want.items():
         f = prog.need(fn, U)
         res.saw(f)
-        calls = f.calls(lookups)
-        good = False
-        desc = []
-        for c in calls:
-            a = call_args(c)
-            roles = [arg_role(f, x) for x in a[1:]]
-            desc.append("%s%s" % (c["callee"], roles))
-            src = strip(a[0])
-            from_sources = False
-            # the source must come from source_vec_value(m->sources, i)
-            for n in walk(f.body):
-                if n["k"] == "DeclStmt":
-                    for d in n["decls"]:
-                        if src["k"] == "DeclRefExpr" and d["name"] == src["name"] and d.get("init") is not None and \
-                                is_call(d["init"], "source_vec_value"):
-                            from_sources = True
-            for nm, idx in accepted:
-                if c["callee"] == nm and roles == [("param", i) for i in idx] and from_sources:
-                    good = True
-        res.check(good and len(calls) == 1, "C05.R1", site(f, "per-source-lookup"),
-                  "%s is built from %s over every source" % (fn, accepted[0][0]),
-                  "%s is built from %s" % (fn, desc), f.loc(calls[0]) if calls else f.loc(f.body))
-        # loop covers all sources: for (i = 0; i < source_vec_size(m->sources); i++)
-        loops = [n for n in walk(f.body) if n["k"] == "ForStmt"]
-        okl = False
-        for L in loops:
-            c = strip(L.get("cond")) if L.get("cond") else None
-            ini = L.get("init")
-            if c and c["k"] == "BinaryOperator" and c.get("op") == "<" and is_call(c["kids"][1], "source_vec_size") and ini:
-                z = [d for d in ini.get("decls", []) if d.get("init") is not None and const_val(d["init"]) == 0]
-                inc = strip(L.get("inc")) if L.get("inc") else None
-                if z and inc and inc["k"] == "UnaryOperator" and inc.get("op") == "++":
-                    okl = True
-        res.check(okl, "C05.R1", site(f, "all-sources-loop"), "loop visits sources 0..size-1",
-                  "the per-source loop does not cover every source", f.loc(f.body))
+        pn = [q["name"] for q in f.params]
+        evp = APE.run(prog, cg, f, bound=APE.BOUND, inline=tuple(x for x in siblings if x != fn))
+        nlook = 0
+        for p in evp.paths:
+            evs = [e for e in p.events if e.kind == "call"]
+            looks = [e for e in evs if e.a in lookups]
+            for k_, e in enumerate(looks):
+                nlook += 1
+                okop = any(e.a == nm and list(e.b[1:]) == [("s", pn[i]) for i in idx] for nm, idx in accepted)
+                # the source: element k of the merger's source vector
+                src = [x for x in evs if x.a == "source_vec_value" and x.c == e.b[0]]
+                oksrc = len(src) >= 1 and strip_tags(APE.vstr(src[0].b[0])).endswith("->sources") and src[0].b[1] == ("c", k_)
+                res.check(okop and oksrc, "C05.R1", site(f, "per-source-lookup"),
+                          "%s is built from %s over every source" % (fn, accepted[0][0]),
+                          "%s is built from %s(%s) on source %s" % (fn, e.a, ",".join(APE.vstr(x) for x in e.b[1:]),
+                                                                      "%s[%s]" % (APE.vstr(src[0].b[0]), APE.vstr(src[0].b[1])) if src else APE.vstr(e.b[0])),
+                          f.loc(e.node), p.describe(f))
+            if p.end == "exit":
+                done = False
+                for (a_, b_), v in p.cons.items():
+                    m_ = re.match(r"^source_vec_size\((.*?)\)(@\d+)?$", a_)
+                    if m_ and strip_tags(m_.group(1)).endswith("->sources") and b_ == "#%d" % len(looks) and GT not in v:
+                        done = True
+                res.check(done, "C05.R1", site(f, "all-sources-loop"), "the walk over the sources ends only when the index has reached their number",
+                          "the per-source loop does not cover every source: a path leaves it after %d source(s) without having established that there are no more" % len(looks),
+                          f.loc(f.body), p.describe(f))
+        if nlook == 0:
+            res.bad("C05.R1", site(f, "per-source-lookup"), "%s performs no per-source lookup" % fn, f.loc(f.body))
         # paths: non-NULL iterator -> iter_vec_add and merger_iter_add_entry with it
-        evp = APE.run(prog, cg, f, bound=APE.BOUND)
         for p in evp.paths:
             evs = [e for e in p.events if e.kind == "call"]
             for i, e in enumerate(evs):
                 if e.a in lookups:
                     c = p.cons.get((APE.vstr(e.c), "#0"))
-                    nonnull = (c is not None and EQ not in c) or fn == "merger_iter"
+                    nonnull = (c is not None and EQ not in c) or fn == slotfn["iter"].name
                     isnull = c is not None and c == frozenset((EQ,))
                     rest = []
                     for x in evs[i + 1:]:
@@ -229,7 +232,7 @@ def run(ctx, res):
                     elif isnull:
                         res.check(not reg and not off, "C05.R1", site(f, "null-iterator"),
                                   "NULL per-source iterator is skipped", "NULL per-source iterator is used", f.loc(e.node), p.describe(f))
-            if p.end == "exit" and fn != "merger_iter":
+            if p.end == "exit" and fn != slotfn["iter"].name:
                 # empty result: entry_vec_size(it->entries) == 0 -> merger_iter_free + return NULL
                 for (a, b), v in p.cons.items():
                     if a.startswith("entry_vec_size(") and b == "#0":
